@@ -1,1 +1,131 @@
-/-! Property theorems for C02 (none yet). -/
+import MirVerif.Lemmas.Sem
+import MirVerif.Lemmas.SemExt
+import MirVerif.Lemmas.SemOv
+import MirVerif.Lemmas.BridgeC02
+/-! # C02 — every (integer) instruction computes its documented result. Property theorems only. -/
+namespace MirVerif
+
+/-- For every integer arithmetic/logic/shift/compare instruction `(a, short)` and ALL 64-bit
+register contents, the macro row the interpreter dispatches to is defined exactly where MIR.md
+defines the instruction and produces the documented bits. -/
+theorem interp_meets_doc (a : AOp) (short : Bool) (x y : W64) :
+    optRel (agree a short) (macroSem (canonKind a short) x y) (docSem a short x y) := by
+  cases a <;> cases short <;>
+    simp only [canonKind, macroSem, docSem, if_true, if_false, Bool.false_eq_true,
+      cS_doc (n := 64) (by decide), cS_doc (n := 32) (by decide), cU_div_doc, cU_mod_doc, cU_rsh_doc,
+      cCmpS_doc, cmpS_short, cmpU_lt, cmpU_le, cmpU_gt, cmpU_ge,
+      cmpU_lt_short, cmpU_le_short, cmpU_gt_short, cmpU_ge_short] <;>
+    first
+      | exact optRel_agree_refl _ _ _
+      | exact optRel_zext_sext _ (by decide) _
+
+/-- `EXT8/16/32`, `UEXT8/16/32`: the interpreter's `EXT(tp)` macro yields the documented extension
+of the low bits, for every 64-bit input. -/
+theorem ext_meets_doc (k : Nat) (hk : k = 8 ∨ k = 16 ∨ k = 32) (signed : Bool) (x : W64) :
+    macroExt k signed x = docExt k signed x := by
+  rcases hk with rfl | rfl | rfl <;> cases signed
+  · exact uext8 x
+  · exact ext8 x
+  · exact uext16 x
+  · exact ext16 x
+  · exact uext32 x
+  · exact ext32 x
+
+/-- `NEG`/`NEGS` -/
+theorem neg_meets_doc (short : Bool) (x : W64) : macroNeg short x = docNeg short x := by
+  cases short <;> simp [macroNeg, docNeg, neg_doc]
+
+/-- Overflow instructions: the flag formulas written in `mir-interp.c` are true exactly when the
+mathematical result does not fit (signed resp. unsigned), and the stored result is the wrapped
+mathematical result — 64-bit forms. -/
+theorem addo_meets_doc (x y : W64) : interpAddO x y = docAddO x y := addo64_flags x y
+theorem subo_meets_doc (x y : W64) : interpSubO x y = docSubO x y := subo64_flags x y
+theorem mulo_meets_doc (x y : W64) : interpMulO x y = docMulO x y := mulo64_flags x y
+theorem umulo_meets_doc (x y : W64) : interpUMulO x y = docUMulO x y := umulo64_flags x y
+/-- 32-bit forms (`ADDOS` … operate on the low halves `(int32_t) op`) -/
+theorem addos_meets_doc (x y : W64) : interpAddO (lo32 x) (lo32 y) = docAddO (lo32 x) (lo32 y) :=
+  addo32_flags _ _
+theorem subos_meets_doc (x y : W64) : interpSubO (lo32 x) (lo32 y) = docSubO (lo32 x) (lo32 y) :=
+  subo32_flags _ _
+theorem mulos_meets_doc (x y : W64) : interpMulO (lo32 x) (lo32 y) = docMulO (lo32 x) (lo32 y) :=
+  mulo32_flags _ _
+theorem umulos_meets_doc (x y : W64) : interpUMulO (lo32 x) (lo32 y) = docUMulO (lo32 x) (lo32 y) :=
+  umulo32_flags _ _
+
+/-- Compare-and-branch: `BICMP/BICMPS/BUCMP/BUCMPS` take the branch exactly when the documented
+comparison result is non-zero. -/
+theorem branch_meets_doc (a : AOp) (h : a.isCmp = true) (short : Bool) (x y : W64) :
+    macroBranch (canonKind a short) x y = docBranch a short x y := by
+  have key := interp_meets_doc a short x y
+  cases a <;> simp [AOp.isCmp] at h <;> cases short <;>
+    simp only [canonKind, macroBranch, docBranch, docSem, docBin, if_true, if_false,
+      Bool.false_eq_true, Option.map_some, b2w_ne_zero, sext32_b2w_ne_zero,
+      cCmpS, cCmpU, BitVec.slt_eq_decide, BitVec.sle_eq_decide, BitVec.ult_eq_decide,
+      BitVec.ule_eq_decide, gt_iff_lt, ge_iff_le] <;>
+    first | rfl | simp [BitVec.toInt_inj, Bool.beq_eq_decide_eq, bne]
+
+theorem nodup_keys_unique {α β} [DecidableEq α] : ∀ (l : List (α × β)) (k : α) (v v' : β),
+    (l.map (·.1)).Nodup → (k, v) ∈ l → (k, v') ∈ l → v = v'
+  | [], _, _, _, _, h, _ => by cases h
+  | (k0, v0) :: tl, k, v, v', hn, h, h' => by
+    simp only [List.map_cons, List.nodup_cons] at hn
+    simp only [List.mem_cons, Prod.mk.injEq] at h h'
+    rcases h with ⟨rfl, rfl⟩ | h <;> rcases h' with ⟨h1, rfl⟩ | h'
+    · rfl
+    · exact absurd (List.mem_map_of_mem (f := (·.1)) h') hn.1
+    · subst h1; exact absurd (List.mem_map_of_mem (f := (·.1)) h) hn.1
+    · exact nodup_keys_unique tl k v v' hn.2 h h'
+
+/-- **The dispatch table of the current `mir-interp.c`** (regenerated on every run): every integer
+arithmetic/logic/shift/compare opcode has exactly one row, and the macro of that row computes the
+documented result for all register contents. -/
+theorem interp_table_meets_doc (a : AOp) (short : Bool) :
+    ∃ k, (opName a short, k) ∈ Gen.C02.intRows ∧
+      (∀ k', (opName a short, k') ∈ Gen.C02.intRows → k' = k) ∧
+      ∀ x y, optRel (agree a short) (macroSem k x y) (docSem a short x y) := by
+  have hc := canon_int_complete
+  rw [List.all_eq_true] at hc
+  have h1 := hc a (AOp.mem_all a)
+  rw [List.all_eq_true] at h1
+  have h2 := h1 short (by cases short <;> simp)
+  have hm : (opName a short, canonKind a short) ∈ Gen.C02.intRows := by
+    rw [gen_intRows]; simpa using h2
+  refine ⟨canonKind a short, hm, ?_, interp_meets_doc a short⟩
+  intro k' hk'
+  exact nodup_keys_unique _ _ _ _ (by rw [gen_intRows]; exact canon_int_functional) hk' hm
+
+/-- compare-and-branch rows of the current table -/
+theorem branch_table_meets_doc (a : AOp) (ha : a ∈ AOp.cmps) (short : Bool) :
+    ∃ k, (brName a short, k) ∈ Gen.C02.brRows ∧
+      (∀ k', (brName a short, k') ∈ Gen.C02.brRows → k' = k) ∧
+      ∀ x y, macroBranch k x y = docBranch a short x y := by
+  have hc := canon_br_complete
+  rw [List.all_eq_true] at hc
+  have h1 := hc a ha
+  rw [List.all_eq_true] at h1
+  have h2 := h1 short (by cases short <;> simp)
+  have hm : (brName a short, canonKind a short) ∈ Gen.C02.brRows := by
+    rw [gen_brRows]; simpa using h2
+  have hcmp : a.isCmp = true := by
+    simp only [AOp.cmps, List.mem_cons, List.not_mem_nil, or_false] at ha
+    rcases ha with rfl | rfl | rfl | rfl | rfl | rfl | rfl | rfl | rfl | rfl <;> rfl
+  refine ⟨canonKind a short, hm, ?_, branch_meets_doc a hcmp short⟩
+  intro k' hk'
+  exact nodup_keys_unique _ _ _ _ (by rw [gen_brRows]; exact canon_br_functional) hk' hm
+
+/-- extension rows of the current table -/
+theorem ext_table_meets_doc (k : Nat) (hk : k = 8 ∨ k = 16 ∨ k = 32) (signed : Bool) :
+    (extName k signed, k, signed) ∈ Gen.C02.extRows ∧ ∀ x, macroExt k signed x = docExt k signed x := by
+  refine ⟨?_, ext_meets_doc k hk signed⟩
+  rw [gen_extRows]
+  rcases hk with rfl | rfl | rfl <;> cases signed <;> decide +kernel
+
+/-- the source text of every macro body, operand getter and overflow/branch case whose meaning
+`macroSem`, `macroExt`, `macroNeg`, `interp*O` transcribe is the reviewed one -/
+theorem pinned_texts_unchanged : Gen.C02.pinned = Canon.C02.pinned := gen_pinned
+
+/-- non-vacuity: a concrete instruction instance where the result is defined and non-trivial -/
+example : docSem .div true 0xFFFFFFFF_80000000 0x1_00000002 = some 0xFFFFFFFF_C0000000 := by decide
+example : macroSem (canonKind .ursh true) 0xFFFFFFFF_80000000 0x1F = some 1 := by decide
+
+end MirVerif
